@@ -162,6 +162,34 @@ def main(ctx):
                     fails.append(({"kind": "det-law", "gate": gate}, desc, gate, dict(args, _earlier_requests=list(earlier)), seeds,
                                   bad + " (gate-time sweep on one gate-set object)"))
                 earlier.append(dict(args))
+    # a second request served by the same gate set while the first is inside its numerical integration (forced thread interleaving,
+    # qgv/interleave.py): the determinant of the first sample follows the law of ITS OWN arguments
+    from qgv import interleave as IL
+    from quantum_gates._gates.gates import NoiseFreeGates
+    for _ in range(16 if ctx.thorough else 5):
+        ga = rng.choice(["X", "SX", "single_qubit_gate", "CR", "CNOT", "ECR", "CNOT_inv", "ECR_inv"])
+        gb = rng.choice(["X", "SX", "single_qubit_gate", "CR", "CNOT"])
+        A, B = make_args(ga, rng), make_args(gb, rng)
+        if "theta" in A and abs(A["theta"]) < 1e-3:
+            A["theta"] = 0.9
+        la, lb = [A[a] for a in gc.GATE_ARGS[ga]], [B[a] for a in gc.GATE_ARGS[gb]]
+        bad = None
+        try:
+            GA, Gref, fired, errB = IL.interleaved(ga, la, gb, lb, inject=False)
+            ideal = complex(np.linalg.det(np.array(getattr(NoiseFreeGates(), ga)(*la), dtype=complex)))
+            want = ideal * law(ga, A)
+            det = complex(np.linalg.det(GA))
+            if errB:
+                bad = f"the second request raised {errB}"
+            elif not abs(det - want) / abs(want) <= 1e-9:
+                bad = (f"det = {det:.12g} while {gb} with other parameters was served by the same gate set inside this request's integration; the "
+                       f"law for this request's own T1 gives {want:.12g} (ratio {abs(det) / abs(want):.6f})")
+        except Exception as e:                  # noqa
+            bad = f"raised {type(e).__name__}: {e}"
+        ctx.count()
+        hist["interleaved"] = hist.get("interleaved", 0) + 1
+        if bad:
+            fails.append(({"kind": "det-law-interleaved", "gate": ga}, ["Gates", ["user-smooth-hooked"]], ga, dict(A, _interleaved_with=[gb, B]), [], bad))
     ctx.sample({"gate_set": descs[0], "gate": "CNOT_inv", "args": make_args("CNOT_inv", rng)})
     cov["distinct_nontrivial"] = len(nontrivial)
     cov["rule"] = ("case = (gate set, gate, arguments, 3 numpy seeds); control/target p, T1, T2 drawn independently (strongly "
@@ -202,6 +230,17 @@ def replay(ctx, path):
     if "gate" not in rp:
         print("replay names a broken obligation:", json.dumps(rp)[:400]); return 1
     args = dict(rp["args"])
+    if "_interleaved_with" in args:
+        from qgv import interleave as IL
+        from quantum_gates._gates.gates import NoiseFreeGates
+        gb, B = args.pop("_interleaved_with")
+        ga = rp["gate"]
+        la, lb = [args[a] for a in gc.GATE_ARGS[ga]], [B[a] for a in gc.GATE_ARGS[gb]]
+        GA, Gref, fired, errB = IL.interleaved(ga, la, gb, lb, inject=False)
+        want = complex(np.linalg.det(np.array(getattr(NoiseFreeGates(), ga)(*la), dtype=complex))) * law(ga, args)
+        det = complex(np.linalg.det(GA))
+        print(f"{ga} {args} with {gb} {B} served inside its integration: det = {det:.12g}, law {want:.12g}")
+        return 0 if abs(det - want) / abs(want) <= 1e-9 and not errB else 1
     for prev in args.pop("_earlier_requests", []):                 # a sweep: the same gate-set object served these first
         oracle(rp["gate_set"], rp["gate"], prev, rp["seeds"][:1])
     bad, d = oracle(rp["gate_set"], rp["gate"], args, rp["seeds"])
